@@ -96,7 +96,7 @@ def _data(shape, dtype=float, rot=0):
     return a.reshape(shape).astype(dtype)
 
 
-IMG_NAMES_QUICK = ["S2", "S2b", "LO", "SI", "U8", "V2", "O8", "OB", "OF", "OH", "T2", "TD", "D1", "S3"]
+IMG_NAMES_QUICK = ["S2", "S2b", "LO", "SI", "U8", "V2", "O8", "OB", "OF", "OH", "T2", "TD", "D1", "S3", "ODD"]
 IMG_NAMES_THOROUGH = IMG_NAMES_QUICK + ["TV", "S3b", "SD", "U16"]
 ARR_NAMES = ["ARR", "ARRT", "ARR8"]
 
@@ -123,6 +123,8 @@ def make_pool(tier):
     )
     p["D1"] = darsia.Image(_data((4, 4), rot=7), scalar=True, date=D0 + datetime.timedelta(hours=5), reference_date=D0, name="D1", **g2())
     p["S3"] = darsia.Image(_data((2, 4, 4), rot=8), scalar=True, space_dim=3, dimensions=[1.0, 2.0, 2.0], origin=[3.0, -2.0, 5.0], name="S3")
+    # odd extents on both axes (branches taken only for odd extents, e.g. coarsening)
+    p["ODD"] = darsia.Image(_data((3, 5), rot=5), scalar=True, name="ODD", dimensions=[1.5, 2.5], origin=[3.0, -2.0])
     if tier == "thorough":
         p["TV"] = darsia.Image(_data((4, 4, 2, 2), rot=9), scalar=False, series=True, time=[1.0, 3.0], name="TV", **g2())
         p["S3b"] = darsia.Image(_data((2, 4, 4), rot=10)[::-1].copy(), scalar=True, space_dim=3, dimensions=[1.0, 2.0, 2.0], origin=[3.0, -2.0, 5.0], name="S3b")
@@ -661,6 +663,28 @@ def _sub_crd(c, x):
     return c.use(x, "self").subregion(c.use(C, "roi"))
 
 
+@op("subregion/voxels-outside", group="subregion")
+def _sub_vox_out(c, x):
+    import darsia
+
+    k = feat(x)
+    need(k.sd >= 1 and all(n >= 2 for n in k.shape[: k.sd]))
+    V = darsia.make_voxel(np.array([[-1] * k.sd, [n + 2 for n in k.shape[: k.sd]]]))
+    return c.use(x, "self").subregion(c.use(V, "roi"))
+
+
+@op("subregion/coordinates-outside", group="subregion")
+def _sub_crd_out(c, x):
+    import darsia
+
+    k = feat(x)
+    need(k.sd >= 1 and all(n >= 2 for n in k.shape[: k.sd]))
+    cs = x.coordinatesystem
+    P = np.asarray(cs.coordinate(np.array([[-1.75] * k.sd, [n + 1.25 for n in k.shape[: k.sd]]])), dtype=float)
+    C = darsia.make_coordinate(P)
+    return c.use(x, "self").subregion(c.use(C, "roi"))
+
+
 @op("reset_origin/return_image", group="reset_origin")
 def _reset_origin(c, x):
     return c.use(x, "self", ignore=("origin",)).reset_origin(return_image=True)
@@ -1070,7 +1094,7 @@ def _coarsen(c, x):
     import darsia
 
     k = feat(x)
-    need(k.sd >= 1 and all(n % 2 == 0 for n in k.shape[: k.sd]) and _numeric(k))
+    need(k.sd >= 1 and _numeric(k))
     return darsia.uniform_refinement(c.use(x, "image"), -1)
 
 
